@@ -494,7 +494,12 @@ def check_fields(prog, res, prop="C08", floor=309):
                "max magnitude %s" % float(pmax * abs(c) + abs(b)), fd.loc, sample={"field": fid, "max": float(pmax * abs(c) + abs(b))} if fid == "df166_8" else None)
         rnd = me["round"]
         trivial = is_pow2(abs(c)) and not has_bias
-        if rnd is None:
+        if rnd is None and prop == "C11":
+            # nearest-value selection for ARBITRARY real inputs needs the rounding step even where every grid point converts exactly:
+            # a truncating cast picks the lower neighbour and is off by up to a whole step
+            res.ob("O-round", "%s | rounding template present: a real input between two grid points goes to the nearer one" % fid, False,
+                   "res=%s bias=%s: the quotient is cast without rounding (truncation towards zero, error up to one step)" % (c_d, b_d), fe.loc)
+        elif rnd is None:
             res.ob("O-round", "%s | rounding template present (or resolution is a power of two without bias: every step exact)" % fid,
                    trivial or c_d is None, "res=%s bias=%s, no rounding" % (c_d, b_d), fe.loc)
         else:
